@@ -107,4 +107,13 @@ def nsiBetweennessDef (n : Nat) (a : Adj) (w : Nat → Rat) (d : DistFn) (isSrc 
     (targets : List Nat) : List Rat :=
   (List.range n).map fun v => betwTimesWDef n a w d isSrc targets v / w v
 
+/-- the published double sum written with path enumerations only (round 5):
+`b_v = (1/w_v) Σ_{t ∈ targets, t ≠ v} w_t Σ_{s source, s ≠ v, reachable from t}
+   w_s · (Σ_{shortest t–s paths through v} Π w) / (Σ_{shortest t–s paths} Π w)` -/
+def nsiBetweennessEnum (n : Nat) (a : Adj) (w : Nat → Rat) (d : DistFn) (isSrc : List Bool)
+    (targets : List Nat) (v : Nat) : Rat :=
+  ((targets.map fun t => if v = t then 0 else
+      w t * sumToQ n fun s => if s != v && (d t s).isSome then
+        excess w isSrc s * (sigmaThruPaths n a w d t v s / sigmaPaths n a w d t s) else 0).sum) / w v
+
 end Pyunicorn.NetBetw
